@@ -243,9 +243,10 @@ def evaluator_sessions(R, batch, tier, stats):
         fd, logpath = tempfile.mkstemp(prefix="fflog", dir=os.environ.get("VERIF_TMP", None))
         os.close(fd)
 
-        numkind = sidx % 5
+        numkind = 5 if (multi and sidx % 2 == 0) else sidx % 5
+        _buf = []
 
-        def ff(prog, logpath=logpath, tab=tab, multi=multi, numkind=numkind):
+        def ff(prog, logpath=logpath, tab=tab, multi=multi, numkind=numkind, _buf=_buf):
             v = prog_value(prog)
             ret = tab[v % len(tab)]
             # a value-dependent delay perturbs the completion order of pool workers
@@ -255,6 +256,11 @@ def evaluator_sessions(R, batch, tier, stats):
                 f.write(json.dumps({"v": v, "ret": ret, "pid": os.getpid()}) + "\n")
             # fitness functions often hand back numpy scalars (counts, pixel errors): unsigned, narrow or boolean-like
             import numpy as _np
+            if numkind == 5:
+                # a callback that reuses ONE buffer list for its answer (plain floats): what is recorded for an individual
+                # must not change when the next one is evaluated
+                _buf[:] = [float(x) for x in ret]
+                return _buf if multi else _buf[0]
             conv = [float, _np.uint8, _np.int64, _np.float32, int][numkind]
             return [conv(x) for x in ret] if multi else conv(ret[0])
 
